@@ -201,7 +201,7 @@ func c16Tier(tier string) int {
 	if tier == "thorough" {
 		return 5000000
 	}
-	return 60000
+	return 400000
 }
 
 func c16Run(c *core.Ctx, idx int) {
